@@ -265,7 +265,7 @@ class FuncSpec:
 class Lemma:
     def __init__(self, name, params):
         self.name = name; self.params = params; self.requires = []; self.ensures = []; self.file = None
-        self.options = {}; self.uses = []; self.uses_post = []
+        self.options = {}; self.uses = []; self.uses_post = []; self.globals = []
 
 
 class Relation:
